@@ -389,6 +389,12 @@ def batt_cases(ctx, n_sys, faults):
             continue
         if not (ib > 1e-7):
             continue
+        if rng.random() < 0.3:
+            # the system was analysed (above) and is then edited: batt_life must see the edited system
+            try:
+                drv_solve.move_leaf(s, rng)
+            except Exception:
+                pass
         n += 1
         v0 = abs(s._g[s._get_index(bat)]._params["vo"]) * rng.uniform(0.9, 1.15)
         r0 = rng.choice([0.0, 0.05, 0.3])
@@ -570,6 +576,33 @@ def analysis_mix(s, rng, twins, rec):
             pass
     t1 = solve_tab()
     t2 = solve_tab()
+    # nothing the analyses computed on the way (derived tables, caches) may show after a LATER edit: move a leaf to
+    # another parent (the freed node index is re-used) and compare every report with a system rebuilt from scratch
+    if rng.random() < 0.6:
+        from model import build
+        from rebuild import rebuild, desc_of
+        comps = {c["name"]: c for c in st["comps"]}
+        haskids = {p for c in st["comps"] for p in c["par"]}
+        leaves = [n for n, c in comps.items() if c["par"] and n not in haskids and c["cls"] != "PMux"]
+        hosts = [n for n, c in comps.items() if c["cls"] not in ("PLoad", "ILoad", "RLoad")]
+        if leaves:
+            n = rng.choice(leaves)
+            cand = [h for h in hosts if h != n and h not in comps[n]["par"]]
+            if cand:
+                with rec.paused(), warnings.catch_warnings():
+                    warnings.simplefilter("ignore")
+                    try:
+                        s.del_comp(n)
+                        s.add_comp(rng.choice(cand), comp=build(desc_of(comps[n])), group=comps[n]["group"], rail=comps[n]["rail"])
+                        st_e = project(s)
+                        ra, rb = reports.all_reports(s), reports.all_reports(rebuild(st_e))
+                        for t in reports.twin_cases("C17.NoInterference.AfterEdit", ra, rb, False, "analyses, then %s moved" % n, 0,
+                                                    only=("Solve", "RailRep", "Phases")):   # (params() also lists non-applicable limits, which a rebuild drops)
+                            t["id"] = len(twins)
+                            t["st"] = st_e
+                            twins.append(t)
+                    except Exception:
+                        pass
     import shutil
     shutil.rmtree(tmp, ignore_errors=True)
     for clause, a, b in (("C17.NoInterference", t0, t1), ("C17.Repeatable", t1, t2)):
